@@ -425,6 +425,10 @@ class PipeFunc(Generic[T]):
             self.mapspec = self.mapspec.rename(old_inverse).rename(self._renames)
 
         self._clear_internal_cache()
+        for pipeline in self._pipelines:
+            if pipeline.cache is not None:
+                # cached results are keyed by argument names, which now mean something else
+                pipeline.cache.clear()
         self._validate()
 
     def update_scope(
